@@ -29,6 +29,10 @@ Streams
             (e) interface bodies (round 4): bodies of unnamed, generic and abstract interface blocks with USE
                 statements of their own and dummy arguments of an imported type - scopes without host
                 association; external subroutines and contained procedures of programs.
+            (f) one identifier, two kinds (round 5): derived types with a user-defined constructor (generic
+                interface of the type's name) - an entry of pub_procs and one of pub_types under one key; every
+                USE form must deliver both (model `getUsedAll`, theorem shared_identifier_imported_in_every_kind;
+                micro stream `c06.used4`: the real get_used_entities with all four tables sharing identifiers).
             (c) order: FORD's correlation order is a topological order, USE statements of contained
                 procedures included (model `isTopo` / `isTopoN`);
                 same tables for every permutation of the file order (all permutations for a
@@ -231,22 +235,28 @@ def spec_tables(graph, sw=frozenset(), order=None):
                 if nm not in hidden:
                     for e in ents:
                         add(sees[n][k], nm, e)
-    return {n: {k: {"all": sees[n][k], "pub": exps[n][k] if scopes[n]["is_mod"] else {}} for k in range(4)}
+    # ("own": the identifiers of kind k the scope declares or obtains by USE, i.e. before host association)
+    own = {n: [{d["name"] for d in s["decls"] if d["kind"] == k} | set(imps[n][k]) for k in range(4)]
+           for n, s in scopes.items()}
+    return {n: {k: {"all": sees[n][k], "pub": exps[n][k] if scopes[n]["is_mod"] else {}, "own": own[n][k]} for k in range(4)}
             for n in scopes}
 
 
 def has_clash(spec, graph):
     """A name that denotes two entities in one scope (any kind: class-1 names share one
     namespace): not a legal program, outside the property's domain."""
-    for n, per in spec.items():
-        seen = {}
-        for k in range(4):
-            for name, ents in per[k]["all"].items():
-                for e in ents:
-                    seen.setdefault(name, set()).add((k, e))
-        if any(len(v) > 1 for v in seen.values()):
-            return True
-    return False
+    return any(own_clash(spec, n) for n in spec)
+
+
+def two_meanings(kes):
+    """`kes`: the (kind, entity) pairs one identifier denotes in a scope.  More than one is a clash,
+    except for the one pair Fortran allows under a single identifier (F2018 15.4.3.4.1: "a generic
+    name may be the same as a derived type name"): a derived type and the generic interface of the same
+    name declared next to it (its user-defined constructor) - the same (scope, name) seen as a
+    procedure and as a type."""
+    if len(kes) <= 1:
+        return False
+    return len({e for _, e in kes}) > 1 or {k for k, _ in kes} != {K_PROC, K_TYPE}
 
 
 def features(graph):
@@ -428,6 +438,15 @@ def gen_graph(rng, idx, hist):
                  "form": rng.choice(["sub", "fun", "gen", "ifc"] if not clashy else ["sub", "fun", "gen"]) if kind == K_PROC else "",
                  "ref": None}
             s["decls"].append(d)
+            if kind == K_TYPE and dn.startswith("t") and rng.random() < (0.3 if is_mod else 0.15):
+                # a user-defined constructor: generic interface with the NAME OF THE TYPE (F2018 15.4.3.4.1).
+                # One identifier, two entities of different kinds (FORD: an entry of all_procs / pub_procs
+                # and one of all_types / pub_types); an access statement names the identifier, i.e. both.
+                d["accs"] = [[a, False] for a, _ in d["accs"]]
+                s["decls"].append({"name": dn, "kind": K_PROC, "accs": [list(a) for a in d["accs"]], "form": "gen",
+                                   "ref": None, "ctor": True})
+                hist["type-with-constructor:" + ("module" if is_mod else "program")] = \
+                    hist.get("type-with-constructor:" + ("module" if is_mod else "program"), 0) + 1
         # ---- references through imported names (types of variables, extends, calls)
         tnames = sorted(spec[name][K_TYPE]["all"])
         hidden = sorted({n for j in range(min(i, nmod)) for d in scopes[j]["decls"] if d["kind"] == K_TYPE for n in [d["name"]]})
@@ -435,8 +454,8 @@ def gen_graph(rng, idx, hist):
             if d["kind"] in (K_VAR, K_TYPE) and rng.random() < 0.5 and (tnames or hidden):
                 d["ref"] = rng.choice(tnames) if tnames and rng.random() < 0.7 else rng.choice(hidden or tnames)
         if not is_mod:
-            pn = sorted(spec[name][K_PROC]["all"])
-            hp = sorted({d["name"] for j in range(nmod) for d in scopes[j]["decls"] if d["kind"] == K_PROC})
+            pn = sorted(n for n in spec[name][K_PROC]["all"] if n not in spec[name][K_TYPE]["all"])
+            hp = sorted({d["name"] for j in range(nmod) for d in scopes[j]["decls"] if d["kind"] == K_PROC and not d.get("ctor")})
             for _ in range(rng.randint(0, 3)):
                 if pn and rng.random() < 0.7:
                     s["calls"].append(rng.choice(pn))
@@ -555,13 +574,33 @@ def own_clash(spec, name):
         for nm, ents in spec[name][k]["all"].items():
             for e in ents:
                 seen.setdefault(nm, set()).add((k, e))
-    return any(len(v) > 1 for v in seen.values())
+    return any(two_meanings(v) for v in seen.values())
+
+
+def hides_across_kinds(spec, graph, name):
+    """does the contained procedure `name` declare or use-associate an identifier as an entity of one kind
+    while its host knows that identifier (also) as an entity of ANOTHER kind which the procedure does not
+    declare or use-associate?  The standard hides the host's identifier altogether; FORD keeps one table
+    per kind and leaves the host's other-kind entry visible.  That is host association proper (the scoping
+    property, hypothesis `SameKindHiding` of the theorems), so such programs are not generated.  It can
+    only arise where one identifier has two kinds: a derived type with its constructor."""
+    ns = next((x for x in graph.get("nested", []) if x["name"] == name), None)
+    if ns is None or ns.get("ibody") or ns.get("host") not in spec:
+        return False
+    here, up = spec[name], spec[ns["host"]]
+    mine = set().union(*(here[k]["own"] for k in range(4)))
+    return any(l in up[k]["all"] and l not in here[k]["own"] for k in range(4) for l in mine)
 
 
 def own_clash_any(graph, name):
     """... by the standard's rules or under any combination of the known defect classes (the
-    classification of a failing project needs single-valued tables for each of them)"""
-    return any(own_clash(spec_tables(graph, sw), name) for sw in switch_sets(graph))
+    classification of a failing project needs single-valued tables for each of them); likewise
+    hiding across kinds"""
+    for sw in switch_sets(graph):
+        spec = spec_tables(graph, sw)
+        if own_clash(spec, name) or hides_across_kinds(spec, graph, name):
+            return True
+    return False
 
 
 def gen_nested(rng, i, s, scopes, nested, exported, defects, hist, twin=None, nature_of=lambda i, j: None, navail=None):
@@ -602,7 +641,11 @@ def gen_nested(rng, i, s, scopes, nested, exported, defects, hist, twin=None, na
                 rng.shuffle(u["items"])
             ns["uses"].append(u)
             nuse += 1
-            bump("nested-shadow:namesake-" + ("only" if u["only"] else "all"))
+            if own_clash_any({"scopes": scopes, "nested": nested}, nm):
+                ns["uses"].pop()  # (only with a type + constructor in play: hiding across kinds)
+                nuse -= 1
+            else:
+                bump("nested-shadow:namesake-" + ("only" if u["only"] else "all"))
         if deepest or rng.random() < 0.5 or nuse:
             for t in range(rng.choice([1, 1, 1, 2]) - nuse):
                 j = rng.choice(fresh) if fresh and rng.random() < 0.7 else rng.choice(cands)
@@ -630,7 +673,7 @@ def gen_nested(rng, i, s, scopes, nested, exported, defects, hist, twin=None, na
             return here[k]["all"].get(n) != up[k]["all"].get(n)
 
         tn = sorted(here[K_TYPE]["all"])
-        pn = sorted(n for n in here[K_PROC]["all"] if not n.startswith("n"))
+        pn = sorted(n for n in here[K_PROC]["all"] if not n.startswith("n") and n not in here[K_TYPE]["all"])
         tn_d = [n for n in tn if differs(K_TYPE, n)]
         pn_d = [n for n in pn if differs(K_PROC, n)]
         for q in range(rng.randint(0, 2) if deepest else rng.randint(0, 1)):
@@ -735,9 +778,15 @@ def gen_use(rng, m, exp, i, q, defects, clashy, mscope):
     r = rng.random()
     u = {"mod": m, "only": False, "items": []}
 
+    # identifiers under which the module exports a derived type AND its constructor
+    pairs = sorted(set(exp[K_PROC]) & set(exp[K_TYPE]))
+
     def pick(n):
         n = min(n, len(names))
-        return rng.sample(names, n) if n else []
+        out = rng.sample(names, n) if n else []
+        if out and pairs and rng.random() < 0.5 and not set(out) & set(pairs):
+            out[rng.randrange(len(out))] = rng.choice(pairs)
+        return out
 
     def loc(rem, z):
         if clashy and rng.random() < 0.3:
@@ -806,23 +855,25 @@ def render_proc(rng, ns, nested, ind):
 
 
 def render_body(rng, d, nested, ind, head="subroutine"):
-    """interface body of declaration `d`: `subroutine name(args)` with the USE statements and typed
-    dummy arguments of its scope (if it has one)"""
+    """interface body of declaration `d`: `subroutine name(args)` (a function for the specific of a
+    constructor: all specifics of a generic named like a type are functions) with the USE statements
+    and typed dummy arguments of its scope (if it has one)"""
     nm = d["name"] + "_impl" if d["form"] == "gen" else d["name"]
+    head, tail = ("integer function", "function") if d.get("ctor") else ("subroutine", "subroutine")
     b = next((x for x in nested if x["name"] == d.get("body")), None)
     if b is None:
         if d["form"] == "gen":
-            return [f"{ind}subroutine {nm}(x)", f"{ind}  integer :: x", f"{ind}end subroutine {nm}"]
+            return [f"{ind}{head} {nm}(x)", f"{ind}  integer :: x", f"{ind}end {tail} {nm}"]
         return [f"{ind}subroutine {nm}()", f"{ind}end subroutine {nm}"]
     args = [f"x{q}" for q in range(len(b["argrefs"]))] or (["x"] if d["form"] == "gen" else [])
-    L = [f"{ind}subroutine {nm}({', '.join(args)})"]
+    L = [f"{ind}{head} {nm}({', '.join(args)})"]
     for u in b["uses"]:
         L.append(f"{ind}  " + (u.get("stmt") or render_use(rng, u)))
     if not b["argrefs"] and args:
         L.append(f"{ind}  integer :: x")
     for a, t in zip(args, b["argrefs"]):
         L.append(f"{ind}  type({rnd_case(rng, t)}) :: {a}")
-    L.append(f"{ind}end subroutine {nm}")
+    L.append(f"{ind}end {tail} {nm}")
     return L
 
 
@@ -849,6 +900,8 @@ def render_scope(rng, s, nested=()):
         n = d["name"]
         inline = ""
         for a, inl in decl_accs(d):
+            if d.get("ctor"):
+                break  # the access statements of the type name the identifier: they are the constructor's too
             word = rnd_case(rng, ACC_WORD[a])
             if inl and d["kind"] in (K_VAR, K_TYPE) and not any(o[0] == di for o in own):
                 inline += f",{sp(rng)}{word}"
@@ -943,6 +996,16 @@ class Impl:
     def ent(self, o):
         return f"{self.home(o)}.{o.name.lower()}"
 
+    def ent_of_kind(self, o, k):
+        """entity held by a table of kind `k`; marked when the object cannot be an entity of that kind (a
+        type in a table of procedures, an interface in a table of types ...): a derived type and its
+        constructor share their name and their module, only the kind tells them apart"""
+        sf = self.sf
+        ok = {K_TYPE: isinstance(o, sf.FortranType), K_VAR: isinstance(o, sf.FortranVariable),
+              K_PROC: not isinstance(o, sf.FortranType),
+              K_ABS: not isinstance(o, (sf.FortranType, sf.FortranVariable))}[k]
+        return self.ent(o) + ("" if ok else "#not-a-" + ("procedure", "abstract-interface", "type", "variable")[k])
+
     def bodies_of(self, host, wanted):
         """procedures that are bodies of interface blocks declared in `host` (unnamed, generic, abstract)"""
         out = []
@@ -999,8 +1062,8 @@ class Impl:
             n = sc.name.lower()
             per = {}
             for k, (a, p) in enumerate(KIND_TABLES):
-                per[k] = {"all": {nm: self.ent(o) for nm, o in getattr(sc, a, {}).items()},
-                          "pub": {nm: self.ent(o) for nm, o in (getattr(sc, p, None) or {}).items()}
+                per[k] = {"all": {nm: self.ent_of_kind(o, k) for nm, o in getattr(sc, a, {}).items()},
+                          "pub": {nm: self.ent_of_kind(o, k) for nm, o in (getattr(sc, p, None) or {}).items()}
                           if isinstance(sc, sf.FortranModule) else {}}
             obs["tables"][n] = per
             refs = {}
@@ -1122,6 +1185,12 @@ def expected_refs(graph, tabs, leak=None):
         if not s["is_mod"]:
             calls = set()
             for c in s["calls"]:
+                if c in tabs[s["name"]][K_TYPE]["all"]:
+                    # a label that (also) names a derived type is a constructor reference: FORD deliberately
+                    # keeps those out of the call list ("Don't register variables or type contructors");
+                    # what a CALL of such a label is linked to is the call-resolution property's business.
+                    # (Never generated under the standard's tables; met only under defect emulation.)
+                    continue
                 e = tabs[s["name"]][K_PROC]["all"].get(c)
                 calls.add(e if e else "?" + c)
             refs["calls"] = sorted(calls)
@@ -1255,6 +1324,23 @@ def micro_streams(impl, drv, rng, n, rep, hist, fixed=False):
             e = ["raised", type(ex).__name__]
         reqs.append(["c06.usedfixed" if fixed else "c06.used", s, " ".join(names)])
         exp.append(e)
+        # ... and with all four export tables filled, sharing identifiers (a derived type and its constructor
+        # are an entry of pub_types and one of pub_procs): each returned table must be the filter of its own
+        # export table, whatever the others hold (model `getUsedAll`)
+        four = [sorted(set(rng.sample(pool, rng.randint(0, 4))) - {""}) for _ in range(4)]
+        fake4 = types.SimpleNamespace(ONLY_RE=M.ONLY_RE, RENAME_RE=M.RENAME_RE,
+                                      **{p: {nm: (k, nm) for nm in four[k]} for k, (_, p) in enumerate(KIND_TABLES)})
+        try:
+            res4 = M.get_used_entities(fake4, s)
+            e4 = ["ok"] + [f"{k}:{loc}={ent[1]}" + ("" if ent[0] == k else f"#from-table-{ent[0]}")
+                           for k, t in enumerate(res4) for loc, ent in t.items()]
+        except Exception as ex:  # noqa
+            e4 = ["raised", type(ex).__name__]
+        shared = len({nm for t in four for nm in t}) < sum(len(t) for t in four)
+        hist["micro:used4-" + ("shared-identifiers" if shared else "disjoint")] = \
+            hist.get("micro:used4-" + ("shared-identifiers" if shared else "disjoint"), 0) + 1
+        reqs.append(["c06.used4fixed" if fixed else "c06.used4", s] + [" ".join(t) for t in four])
+        exp.append(e4)
         line = "".join(rng.choice(utoks) for _ in range(rng.randint(1, 8)))
         if i % 2 == 0:
             line = rng.choice(["use ", "use::", "USE, intrinsic :: ", "use ,non_intrinsic::", "use,"]) + line
@@ -1531,11 +1617,19 @@ def run(tier: str, seed: int, replay: str | None = None) -> int:
             feats = features(g)
             for f in feats:
                 hist["feature:" + f] = hist.get("feature:" + f, 0) + 1
-            for s in g["scopes"]:
+            strict_g = spec_tables(g) if any(d.get("ctor") for s in g["scopes"] for d in s["decls"]) else None
+            for s in g["scopes"] + (g.get("nested", []) if strict_g else []):
                 for u in s["uses"]:
                     form = ("only" if u["only"] else "all") + ("+rename" if any(l != r for l, r in u["items"]) else "") \
                         + ("" if u["items"] or not u["only"] else "-empty")
-                    hist["use:" + form] = hist.get("use:" + form, 0) + 1
+                    if not s.get("host"):
+                        hist["use:" + form] = hist.get("use:" + form, 0) + 1
+                    if strict_g and u["mod"] in strict_g:
+                        # identifiers under which the used module exports a type together with its constructor
+                        both = set(strict_g[u["mod"]][K_PROC]["pub"]) & set(strict_g[u["mod"]][K_TYPE]["pub"])
+                        if both and (not u["only"] or any(r in both for _, r in u["items"])):
+                            how = form + ("(renamed)" if any(r in both and l != r for l, r in u["items"]) else "")
+                            hist["import-of-type+constructor:" + how] = hist.get("import-of-type+constructor:" + how, 0) + 1
                 if s["is_mod"]:
                     hist["default:" + ("public" if s["def_pub"] else "private")] = hist.get("default:" + ("public" if s["def_pub"] else "private"), 0) + 1
             mt = parse_model(mo)
@@ -1592,6 +1686,11 @@ def run(tier: str, seed: int, replay: str | None = None) -> int:
         "CPython re is on the implementation side only; the scanners are its deterministic reading, validated on the micro stream "
         "and pinned to the regex sources by the generated table",
         "projects in which one name denotes two entities in a scope are outside the property's domain (oracle skipped, correspondence kept)",
+        "a derived type with a user-defined constructor (generic interface of the same name) is one identifier with two "
+        "entities (kinds procedure and type): both are given their accessibility by access STATEMENTS only (a statement names "
+        "the identifier, i.e. both entities), the constructor is never the target of a CALL (FORD keeps constructor references "
+        "out of its call lists on purpose), and a contained procedure never re-uses such an identifier for an entity of one "
+        "kind only (hiding across kinds, see above); a generic and a type of one name from DIFFERENT modules are not generated",
         "the default-accessibility statement (bare PRIVATE / PUBLIC) is always rendered before the declarations of the module; "
         "PROTECTED is given to variables only; an entity is never given both PUBLIC and PRIVATE (hypothesis LegalAccess)",
     ]
